@@ -169,13 +169,8 @@ def run(check, an: Analysis):
                 check.instance('F', '%s:%s.%s' % (short(fn.qn), attr, detail), ok,
                                '%s:%d' % (fn.module.relpath, node.lineno),
                                'producers append to the pending deque')
-    run_events = an.method(LOOP, '_run_events')
-    pops = [n for n in ast.walk(run_events.node) if isinstance(n, ast.Call)
-            and isinstance(n.func, ast.Attribute) and n.func.attr.startswith('pop')
-            and ast.unparse(n.func.value) in ('pending', 'self._pending')]
-    check.instance('F', '_run_events:popleft', len(pops) == 1 and
-                   pops[0].func.attr == 'popleft', where_fn(run_events),
-                   'turns are taken from the left of the deque activations are appended to')
+    from . import c01
+    c01.check_drain(check, an, an.callee(LOOP, '_run_events'), 'F')
     for qn in (HQ, SD):
         push = an.method(qn, 'push')
         ops = sorted({n.func.attr for n in ast.walk(push.node) if isinstance(n, ast.Call)
@@ -204,34 +199,53 @@ def run(check, an: Analysis):
     public = lambda cls: sorted(n for n in cls.methods if n not in ('__init__', '__repr__'))
     check.instance('S', 'same-interface', public(hq) == public(sd),
                    hq.module.relpath, 'methods: %s / %s' % (public(hq), public(sd)))
-    for name, want in (('__len__', 'sum((len(item) for item in self._data.values()))'),):
-        forms = []
-        for cls in (hq, sd):
-            rets = [n for n in ast.walk(cls.methods[name].node) if isinstance(n, ast.Return)]
-            forms.append(ast.unparse(rets[0].value) if rets else None)
-        check.instance('S', 'same-%s' % name, forms[0] == forms[1] == want,
-                       hq.module.relpath, '%s: %s' % (name, forms))
     truth = []
     for cls, want in ((hq, 'bool(self._keys)'), (sd, 'bool(self._data)')):
-        rets = [n for n in ast.walk(cls.methods['__bool__'].node) if isinstance(n, ast.Return)]
-        truth.append(bool(rets) and ast.unparse(rets[0].value) == want)
+        callee = an.callee(cls.qn, '__bool__')
+        good = True
+        for path in an.paths(callee):
+            if path.kind == 'return':
+                good &= rules.value_text(path, len(path.events) - 1,
+                                         path.outcome[1]) == want
+        truth.append(good)
     check.instance('S', 'same-truth', all(truth), hq.module.relpath,
                    'non-empty iff a key is queued (keys and deques are created together: '
                    'C01/L2)')
-    # structure of push: try append / except KeyError create deque
+    # push: append to the key's deque, creating it (empty) on KeyError -- in both classes
     shapes = []
     for cls in (hq, sd):
-        push = cls.methods['push']
-        tries = [n for n in push.node.body if isinstance(n, ast.Try)]
-        shape = None
-        if len(tries) == 1 and len(tries[0].handlers) == 1:
-            body = ast.unparse(tries[0].body[0]) if tries[0].body else ''
-            shape = (body, ast.unparse(tries[0].handlers[0].type))
-        shapes.append(shape)
-    params = [a.arg for a in hq.methods['push'].node.args.args[1:]]
-    want = ('self._data[%s].append(%s)' % tuple(params), 'KeyError')
-    check.instance('S', 'same-push', shapes[0] == shapes[1] == want, hq.module.relpath,
-                   'both try `%s` and create the deque on KeyError' % want[0])
+        callee = an.callee(cls.qn, 'push')
+        params = [a.arg for a in callee.fn.node.args.args[1:]]
+        good, kinds = True, set()
+        for path in an.paths(callee):
+            if not path.normal:
+                continue
+            missed = any(e.kind == 'handler' and e['exc'] == 'ext:KeyError'
+                         for e in path.events)
+            appends = [(i, e) for i, e in enumerate(path.events) if e.kind == 'call'
+                       and isinstance(e.node, ast.Call)
+                       and isinstance(e.node.func, ast.Attribute)
+                       and e.node.func.attr == 'append' and e.get('exit') == 'normal']
+            created = [(i, e) for i, e in enumerate(path.events) if e.kind == 'store'
+                       and e.get('base') is not None and rules.value_text(
+                           path, i, e.node.value) == 'self._data']
+            item_ok = len(appends) == 1 and [ast.unparse(a) for a in
+                                             appends[0][1].node.args] == [params[1]]
+            if missed:
+                kinds.add('create')
+                fresh = len(created) == 1 and rules.value_text(
+                    path, created[0][0], created[0][1]['value']) in ('deque()',
+                                                                     'collections.deque()')
+                good &= item_ok and fresh
+            else:
+                kinds.add('existing')
+                target = rules.value_text(path, appends[0][0],
+                                          appends[0][1].node.func.value) if appends else ''
+                good &= item_ok and not created and target == 'self._data[%s]' % params[0]
+        shapes.append(good and kinds == {'create', 'existing'})
+    check.instance('S', 'same-push', all(shapes), hq.module.relpath,
+                   'both append the item to `_data[key]` and create a fresh empty deque on '
+                   'KeyError: %s' % shapes)
     sel_ok = False
     branches = [n for n in waitq.tree.body if isinstance(n, ast.If)]
     if len(branches) == 1:
